@@ -104,6 +104,33 @@ def _run_readers(case):
                                 viols.append(V("C03:netcdf.EEMSRead:payload-leak", "result depends on the fill value stored beneath missing cells: %r vs %r" % (per_fill[key], cells), **tag))
                             per_fill.setdefault(key, cells)
                             outcomes["netcdf:ok"] = outcomes.get("netcdf:ok", 0) + 1
+            # files WITHOUT a _FillValue whose missing cells hold the caller's marker (MissingValue = -9999 / 7.5, outside and inside the allowed range
+            # of the DataType): either the read is refused, or every cell holding the marker is missing in the result
+            for marker in (-9999.0, 7.5, 0.5):
+                for m in range(1, 16):
+                    miss = [bool(m >> i & 1) for i in range(4)]
+                    stored = [marker if miss[i] else vals[i] for i in range(4)]
+                    if any((not miss[i]) and vals[i] == marker for i in range(4)):
+                        continue
+                    c18._make_template(os.path.join(work, "in.nc"), grid, {"v": ("f8", stored, None, None)})
+                    for dtype in c18.DTYPES:
+                        if dtype in ("Integer", "Positive Integer") and marker != int(marker):
+                            continue  # (the marker is compared with the CONVERTED data: a fractional marker on an integer read is C18's business)
+                        res = c18._eems_read(work, "in.nc", "v", dtype, marker)
+                        evals += 1
+                        tag = {"reader": "netcdf", "cells_holding_the_marker": miss, "fill_value": None, "DataType": dtype, "MissingValue": marker}
+                        sample = tag
+                        if res[0] != "ok":
+                            outcomes["netcdf:marker:err"] = outcomes.get("netcdf:marker:err", 0) + 1
+                            continue
+                        judged += 1
+                        nontriv += 1
+                        got = numpy.ma.getmaskarray(res[1]).ravel().tolist()
+                        lost = [i for i in range(4) if miss[i] and not got[i]]
+                        if lost:
+                            viols.append(V("C03:netcdf.EEMSRead:missing-lost:marker-without-fill-value", "cell %d holds MissingValue %r in the file but is present (%r) in the result (DataType %r)" % (
+                                lost[0], marker, numpy.ma.getdata(res[1]).ravel()[lost[0]], dtype), **tag))
+                        outcomes["netcdf:marker:ok"] = outcomes.get("netcdf:marker:ok", 0) + 1
             # named LARGE sizes (beyond 2^16 and beyond 2^20 cells, 1-D and 2-D): the file's missing cells, cell for cell
             for grid in ((257, 256), (1100, 1000), (1, 70001)):
                 size = grid[0] * grid[1]
